@@ -164,3 +164,31 @@ Example ex_drop_none :
   drop_privileges false ok_oracle ex_world (Some (ById 1000)) =
   ([(Setgroups [100; 7; 8], None); (Setgid 100, None); (Setuid 1000, None)], Val None).
 Proof. vm_compute. reflexivity. Qed.
+
+(* ---- the descriptor table behind the symbolic sources of c18_order.
+   dup2 copies what the source descriptor refers to at that moment; the order
+   0, 1, 2 is right for every numbering in which the stdout and stderr pipe
+   ends are not 0 and the stderr end is not 1 - which holds for the numbers
+   os.pipe() hands out (child_stdin gets the lowest free number, the others
+   come later), whichever of 0/1/2 supervisord had closed. *)
+Definition dup2_tab (t : Z -> Z) (src to : Z) : Z -> Z :=
+  fun fd => if fd =? to then t src else t fd.
+
+Definition after_fds (a b c : Z) : Z -> Z :=
+  dup2_tab (dup2_tab (dup2_tab (fun fd => fd) a 0) b 1) c 2.
+
+Theorem fd_table_ok : forall a b c,
+  b <> 0 -> c <> 0 -> c <> 1 ->
+  after_fds a b c 0 = a /\ after_fds a b c 1 = b /\ after_fds a b c 2 = c.
+Proof.
+  intros a b c Hb Hc0 Hc1. unfold after_fds, dup2_tab. cbn.
+  assert (E1 : (b =? 0) = false) by (apply Z.eqb_neq; exact Hb).
+  assert (E2 : (c =? 0) = false) by (apply Z.eqb_neq; exact Hc0).
+  assert (E3 : (c =? 1) = false) by (apply Z.eqb_neq; exact Hc1).
+  rewrite E1, E2, E3. auto.
+Qed.
+
+(* connecting stderr first is wrong when child_stdin is descriptor 2 *)
+Example fd_table_reordered_wrong :
+  let t := dup2_tab (dup2_tab (dup2_tab (fun fd => fd) 54 2) 2 0) 53 1 in t 0 = 54.
+Proof. reflexivity. Qed.
